@@ -1,8 +1,8 @@
 \* queue controller: failed start write with the slot held, capacity freed with two Jobs waiting, restart with a queued Job
 CONSTANTS Jobs = {1,2,3} JCs = {1} MaxC <- MCMaxC1 MaxTime = 2 MaxLag = 3 MaxFaults = 1 MaxCrashes = 1 MaxTouch = 0
   StoreLag = FALSE AppliedFaults = FALSE StartAfters = {0} Owners = {1} Pols = {"Enqueue", "Forbid"} Scheds = {FALSE} WithJCSync = FALSE
-  Env = {} D = 50 K = 25 Goals = {3, 4, 5}
+  Env = {"Delete"} D = 50 K = 25 Goals = {3, 4, 5, 6}
 SPECIFICATION GSpec
 VIEW GView
-INVARIANTS Goal3 Goal4 Goal5 Stop
+INVARIANTS Goal3 Goal4 Goal5 Goal6 Stop
 CHECK_DEADLOCK FALSE
